@@ -443,12 +443,31 @@ Qed.
 Lemma ostr_eqb_refl o : ostr_eqb o o = true.
 Proof. destruct o; cbn; auto. apply eqb_str_refl. Qed.
 
-Lemma ldap_walk_model creds reqs : forall login logged,
-  (is_login login = true -> logged = true) ->
-  let out := snd (ldap_run creds login reqs) in
-  ldap_sig_walk creds logged reqs (map (fun x => snd (fst x)) out) (map snd out) = 0%N.
+(* a bind that is answered with success sets the session login to the evaluated name (empty for
+   the anonymous bind); any other bind leaves it alone *)
+Lemma ldap_bind_login creds login ver dn pw login' rp ev :
+  ldap_bind creds login ver dn pw = (login', rp, ev) ->
+  if reply_ok rp then login' = norm_dn dn else login' = login.
 Proof.
-  induction reqs as [|r rest IH]; intros login logged Hl; cbn zeta; cbn [ldap_run]; [reflexivity|].
+  unfold ldap_bind. destruct (ver <? 2).
+  - intros E; inversion E; subst. reflexivity.
+  - unfold bind_func.
+    destruct (Nat.eqb (length (norm_dn dn ++ C_colon :: pw)) 1) eqn:El.
+    + intros E; inversion E; subst. cbn [reply_ok RES_SUCCESS N.eqb].
+      apply Nat.eqb_eq in El. rewrite app_length in El. cbn [length] in El.
+      destruct (norm_dn dn); [reflexivity | cbn in El; lia].
+    + destruct (existsb (eqb_str (norm_dn dn ++ C_colon :: pw)) creds).
+      * intros E; inversion E; subst. reflexivity.
+      * intros E; inversion E; subst. destruct pw; destruct (norm_dn dn); reflexivity.
+Qed.
+
+Lemma ldap_walk_model creds reqs : forall login logged cur,
+  (is_login login = true -> logged = true) ->
+  (cur = true -> is_login login = true) ->
+  let out := snd (ldap_run creds login reqs) in
+  ldap_sig_walk creds logged cur reqs (map (fun x => snd (fst x)) out) (map snd out) = 0%N.
+Proof.
+  induction reqs as [|r rest IH]; intros login logged cur Hl Hc; cbn zeta; cbn [ldap_run]; [reflexivity|].
   destruct (ldap_step creds login r) as [[login' rp] ev] eqn:Es.
   destruct (ldap_run creds login' rest) as [fin out] eqn:Er.
   cbn [snd fst map ldap_sig_walk].
@@ -457,40 +476,36 @@ Proof.
   - pose proof (ldap_bind_event creds login ver dn pw) as Hev. rewrite Es in Hev. cbn [snd] in Hev.
     subst ev. unfold levent_bind_ok. cbn [le_type le_user le_pw]. rewrite !ostr_eqb_refl.
     change ((T_BIND =? T_BIND)%N) with true. cbn [andb negb].
+    pose proof (ldap_bind_login _ _ _ _ _ _ _ _ Es) as Hlog.
     destruct (ver <? 2) eqn:Ev.
     + rewrite ldap_bind_old_version in Es by lia. inversion Es; subst.
       assert (2 <=? ver = false) as -> by lia. cbn [reply_ok andb orb].
       change ((RES_PROTOCOL =? 0)%N) with false. cbn [andb negb orb].
-      rewrite orb_false_r. apply IH, Hl.
-    + destruct (ldap_bind_spec creds login ver dn pw ltac:(lia)) as [l' [code [E [Hc Hcodes]]]].
+      rewrite orb_false_r. apply IH; assumption.
+    + destruct (ldap_bind_spec creds login ver dn pw ltac:(lia)) as [l' [code [E [Hcd Hcodes]]]].
       rewrite E in Es. inversion Es; subst.
       assert (reply_ok (Some (1%N, code)) = ldap_spec creds dn pw) as Hok.
-      { apply Bool.eq_iff_eq_true. rewrite ldap_spec_iff, <- Hc. cbn [reply_ok].
+      { apply Bool.eq_iff_eq_true. rewrite ldap_spec_iff, <- Hcd. cbn [reply_ok].
         rewrite N.eqb_eq. reflexivity. }
-      rewrite Hok. assert (2 <=? ver = true) as -> by lia.
+      rewrite Hok in *. assert (2 <=? ver = true) as -> by lia.
       destruct (ldap_spec creds dn pw) eqn:Sp; cbn [andb negb orb].
-      * apply IH. intros L.
-        destruct (ldap_step_login creds login (LBind ver dn pw) login' _ _ E L) as [H|H].
-        -- rewrite (Hl H). reflexivity.
-        -- unfold succ_login in H. cbn [fst snd] in H. rewrite Hok in H.
-           apply andb_true_iff in H as [_ H]. rewrite H. apply orb_true_r.
-      * rewrite orb_false_r. apply IH. intros L.
-        destruct (ldap_step_login creds login (LBind ver dn pw) login' _ _ E L) as [H|H]; auto.
-        unfold succ_login in H. cbn [fst snd] in H. rewrite Hok in H.
-        rewrite andb_false_r in H. discriminate.
+      * subst login'. apply IH.
+        -- intros L. rewrite is_login_is_nil in L. rewrite L. apply orb_true_r.
+        -- intros L. rewrite is_login_is_nil. exact L.
+      * subst login'. rewrite orb_false_r. apply IH; assumption.
   - unfold ldap_bind_fallthrough in Es. inversion Es; subst. cbn [le_type].
-    change ((T_BIND =? T_BIND)%N) with true. cbn [negb]. apply IH, Hl.
+    change ((T_BIND =? T_BIND)%N) with true. cbn [negb]. apply IH; assumption.
   - unfold ldap_bind_fallthrough in Es. inversion Es; subst. cbn [le_type].
-    change ((T_BIND =? T_BIND)%N) with true. cbn [negb]. apply IH, Hl.
+    change ((T_BIND =? T_BIND)%N) with true. cbn [negb]. apply IH; assumption.
   - unfold ldap_bind_fallthrough in Es. inversion Es; subst. cbn [le_type le_user].
-    change ((T_BIND =? T_BIND)%N) with true. rewrite ostr_eqb_refl. cbn [andb negb]. apply IH, Hl.
+    change ((T_BIND =? T_BIND)%N) with true. rewrite ostr_eqb_refl. cbn [andb negb]. apply IH; assumption.
   - destruct (ldap_catchall login tag) as [rp' ev'] eqn:Ec. inversion Es; subst.
     destruct (ldap_gated tag) eqn:G; cbn [andb].
     + destruct (ldap_catchall_code login' tag G) as [rt E]. rewrite Ec in E. cbn [fst] in E.
       subst rp. destruct (is_login login') eqn:L.
-      * rewrite (Hl eq_refl). cbn. apply IH. auto.
-      * cbn. apply IH, Hl.
-    + apply IH, Hl.
+      * rewrite (Hl eq_refl). cbn. apply IH; auto.
+      * cbn. destruct cur; [specialize (Hc eq_refl); discriminate|]. apply IH; auto.
+    + apply IH; assumption.
 Qed.
 
 Lemma lcase_sig_model id creds reqs :
@@ -498,7 +513,7 @@ Lemma lcase_sig_model id creds reqs :
   lcase_sig (mkLCase id creds reqs (map (fun x => snd (fst x)) out) (map snd out)) = 0%N.
 Proof.
   cbn zeta. unfold lcase_sig, ldap_session. cbn [lc_creds lc_reqs lc_replies lc_events].
-  apply (ldap_walk_model creds reqs [] false). discriminate.
+  apply (ldap_walk_model creds reqs [] false false); discriminate.
 Qed.
 
 (* in every history, from every session state, the event recorded for a simple bind carries the
@@ -751,8 +766,16 @@ Proof.
   - intros ->. apply ftp_lookup_pass_name in L. contradiction.
 Qed.
 
+Lemma ftp_exec_not_530 users st c param st' codes :
+  c <> PASS -> ftp_exec users st c param = (st', codes) -> codes_eqb codes [530%N] = false.
+Proof.
+  intros N E. destruct c; try congruence; cbn [ftp_exec] in E;
+    repeat match type of E with context [if ?b then _ else _] => destruct b eqn:? end;
+    inversion E; subst; reflexivity.
+Qed.
+
 Lemma ftp_walk_model lines : forall st logged,
-  (f_user st <> [] -> logged = true) ->
+  (f_user st <> [] <-> logged = true) ->
   ftp_sig_walk (f_requser st) logged lines
      (map (fun x => outcome_codes (snd x)) (snd (ftp_run ftp_users st lines))) = 0%N.
 Proof.
@@ -787,7 +810,8 @@ Proof.
         destruct (check_passwd ftp_users (f_requser st) (b :: param')) eqn:C;
           inversion Es; subst; cbn [outcome_codes].
         -- change (codes_eqb [230%N] [230%N]) with true. cbn [andb negb orb]. cbn iota.
-           rewrite orb_true_r. apply (IH true). auto.
+           rewrite orb_true_r. apply (IH true). cbn [f_user].
+           apply ftp_users_only_anonymous in C as [-> _]. split; [reflexivity|discriminate].
         -- change (codes_eqb [530%N] [230%N]) with false. cbn [andb negb orb]. cbn iota.
            rewrite orb_false_r. apply IH, Hl.
     + apply eqb_str_false in EP. cbn [andb].
@@ -796,14 +820,26 @@ Proof.
                 (map (fun x => outcome_codes (snd x)) out) = 0%N) as Hrest.
       { rewrite <- Hr. apply IH. rewrite Hu. exact Hl. }
       destruct (existsb (eqb_str (to_upper command)) ftp_gated_names) eqn:G; cbn [andb]; [|exact Hrest].
-      destruct logged; [rewrite andb_false_r; exact Hrest|].
       destruct (ftp_gated_lookup _ G) as [c [L R]].
-      assert (f_user st = []) as U.
-      { destruct (f_user st) eqn:Fu; auto. assert (false = true) by (apply Hl; discriminate). discriminate. }
-      destruct (ftp_gate ftp_users st l command param c P L R U) as [H|H];
-        rewrite H in Es; inversion Es; subst; cbn [outcome_codes];
-        [change (refused [553%N]) with true | change (refused [530%N]) with true];
-        cbn [negb andb]; exact Hrest.
+      destruct logged.
+      * (* logged in: the command is served (or lacks its argument), never answered 530 *)
+        rewrite andb_false_r, andb_true_r.
+        assert (codes_eqb (outcome_codes o) [530%N] = false) as ->; [|exact Hrest].
+        assert (f_user st <> []) as U by (apply Hl; reflexivity).
+        unfold ftp_step in Es. rewrite P, L, R in Es.
+        destruct (require_param c && _); [inversion Es; reflexivity|].
+        destruct (f_user st) eqn:Fu; [congruence|]. cbn [andb] in Es.
+        destruct (ftp_exec ftp_users st c param) as [st2 codes] eqn:Ex. inversion Es; subst.
+        cbn [outcome_codes]. eapply ftp_exec_not_530; [|exact Ex].
+        intros ->. apply ftp_lookup_pass_name in L. contradiction.
+      * rewrite andb_false_r.
+        assert (f_user st = []) as U.
+        { destruct (f_user st) eqn:Fu; auto.
+          assert (false = true) by (apply Hl; discriminate). discriminate. }
+        destruct (ftp_gate ftp_users st l command param c P L R U) as [H|H];
+          rewrite H in Es; inversion Es; subst; cbn [outcome_codes];
+          [change (refused [553%N]) with true | change (refused [530%N]) with true];
+          cbn [negb andb]; exact Hrest.
 Qed.
 
 Lemma fs_same_refl fs : fs_same fs fs = true.
@@ -835,7 +871,7 @@ Lemma fcase_sig_model id fs lines :
 Proof.
   cbn zeta. unfold fcase_sig. cbn [fc_lines fc_codes fc_events fc_fs0 fc_fs1].
   pose proof (ftp_walk_model lines (ftp_init fs) false) as W. cbn [ftp_init f_requser f_user] in W.
-  rewrite W by congruence. cbn [orsig N.eqb].
+  rewrite W by (split; [congruence|discriminate]). cbn [orsig N.eqb].
   rewrite list_eqb_refl by apply eqb_str_refl. cbn [orsig N.eqb].
   destruct (ftp_run ftp_users (ftp_init fs) lines) as [fin out] eqn:Er. cbn [fst snd].
   destruct (existsb (codes_eqb [230%N]) (map (fun x => outcome_codes (snd x)) out)) eqn:E;
@@ -844,4 +880,189 @@ Proof.
   { unfold no230. apply negb_true_iff. rewrite <- E. now rewrite existsb_230. }
   destruct (ftp_run_no_login _ _ _ _ _ Er Hn) as [_ Hf]. cbn [ftp_init f_user f_fs] in Hf.
   rewrite Hf by reflexivity. now rewrite fs_same_refl.
+Qed.
+
+(* ------------------------------------------------------------------ *)
+(* several connections on one service object: frame theorems           *)
+(* ------------------------------------------------------------------ *)
+
+Lemma proj_cons {A} c k (x : A) l :
+  proj c ((k, x) :: l) = if Nat.eqb k c then x :: proj c l else proj c l.
+Proof. unfold proj. cbn [filter fst]. destruct (Nat.eqb k c); reflexivity. Qed.
+
+Lemma upd_same {A} (m : nat -> A) c v : upd m c v c = v.
+Proof. unfold upd. now rewrite Nat.eqb_refl. Qed.
+
+Lemma upd_other {A} (m : nat -> A) k c v : Nat.eqb k c = false -> upd m k v c = m c.
+Proof. unfold upd. intros H. rewrite Nat.eqb_sym. now rewrite H. Qed.
+
+(* ldap: what connection c sees in ANY schedule is what it sees when its own requests are run
+   alone on a fresh connection - whatever the other connections do in between *)
+Lemma ldap_frame creds sched : forall st c,
+  proj c (ldap_multi creds st sched) = snd (ldap_run creds (st c) (proj c sched)).
+Proof.
+  induction sched as [|[k r] rest IH]; intros st c; cbn [ldap_multi]; [reflexivity|].
+  destruct (ldap_step creds (st k) r) as [[l' rp] ev] eqn:Es.
+  rewrite !proj_cons. destruct (Nat.eqb k c) eqn:E.
+  - apply Nat.eqb_eq in E. subst k. cbn [ldap_run]. rewrite Es, IH, upd_same.
+    destruct (ldap_run creds l' (proj c rest)). reflexivity.
+  - rewrite IH, upd_other by assumption. reflexivity.
+Qed.
+
+Lemma ldap_run_reqs creds reqs : forall login,
+  map (fun x => fst (fst x)) (snd (ldap_run creds login reqs)) = reqs.
+Proof.
+  induction reqs as [|r rest IH]; intros login; cbn [ldap_run]; [reflexivity|].
+  destruct (ldap_step creds login r) as [[l' rp] ev].
+  specialize (IH l'). destruct (ldap_run creds l' rest). cbn [snd map fst] in *. now rewrite IH.
+Qed.
+
+Lemma first_sig_zero l : (forall x, In x l -> x = 0%N) -> first_sig l = 0%N.
+Proof.
+  induction l as [|a r IH]; intros H; cbn [first_sig]; [reflexivity|].
+  rewrite (H a) by (left; reflexivity). cbn [orsig N.eqb]. apply IH. intros x Hx. apply H. now right.
+Qed.
+
+Lemma lmcase_sig_model id creds sched :
+  lmcase_sig (mkLMCase id creds (ldap_multi creds (fun _ => []) sched)) = 0%N.
+Proof.
+  unfold lmcase_sig. cbn [lm_creds lm_steps]. apply first_sig_zero. intros x Hx.
+  apply in_map_iff in Hx as [k [<- _]]. unfold lm_conn_sig. rewrite ldap_frame.
+  rewrite ldap_run_reqs. apply (ldap_walk_model creds (proj k sched) [] false false); discriminate.
+Qed.
+
+(* ldap: the effect of a login.  Requests that are not a successful bind keep the login ... *)
+Definition keeps_login (creds : list str) (r : lreq) : bool :=
+  match r with
+  | LBind ver dn pw => (ver <? 2) || negb (ldap_spec creds dn pw)
+  | _ => true
+  end.
+
+Lemma ldap_step_keeps creds login r :
+  keeps_login creds r = true -> fst (fst (ldap_step creds login r)) = login.
+Proof.
+  destruct r as [ver dn pw | ver | ver | ver dn | tag]; cbn [ldap_step keeps_login]; intros K;
+    try reflexivity.
+  - destruct (ver <? 2) eqn:Ev.
+    + rewrite ldap_bind_old_version by lia. reflexivity.
+    + cbn [orb] in K. apply negb_true_iff in K.
+      destruct (ldap_bind_spec creds login ver dn pw ltac:(lia)) as [l' [code [E [Hc _]]]].
+      pose proof (ldap_bind_login _ _ _ _ _ _ _ _ E) as Hl. rewrite E. cbn [fst].
+      assert (reply_ok (Some (1%N, code)) = false) as R.
+      { cbn [reply_ok]. apply N.eqb_neq. intros C. apply Hc in C.
+        apply ldap_spec_iff in C. congruence. }
+      rewrite R in Hl. exact Hl.
+  - destruct (ldap_catchall login tag). reflexivity.
+Qed.
+
+Lemma ldap_run_keeps creds mid : forall login,
+  forallb (keeps_login creds) mid = true -> fst (ldap_run creds login mid) = login.
+Proof.
+  induction mid as [|r rest IH]; intros login K; cbn [ldap_run]; [reflexivity|].
+  cbn [forallb] in K. apply andb_true_iff in K as [K1 K2].
+  pose proof (ldap_step_keeps creds login r K1) as S.
+  destruct (ldap_step creds login r) as [[l' rp] ev]. cbn [fst] in S. subst l'.
+  specialize (IH login K2). destruct (ldap_run creds login rest). exact IH.
+Qed.
+
+(* ... so after a bind with a configured pair and a non-empty evaluated name, every gated
+   operation is answered with success until the next successful bind *)
+Lemma ldap_login_effect creds login ver dn pw mid tag :
+  2 <= ver -> In (norm_dn dn ++ C_colon :: pw) creds -> norm_dn dn <> [] ->
+  forallb (keeps_login creds) mid = true -> ldap_gated tag = true ->
+  exists rt,
+    fst (ldap_catchall (fst (ldap_run creds login (LBind ver dn pw :: mid))) tag)
+    = Some (rt, RES_SUCCESS).
+Proof.
+  intros Hv Hin Hn K G. cbn [ldap_run ldap_step].
+  destruct (ldap_bind_spec creds login ver dn pw Hv) as [l' [code [E [Hc _]]]].
+  pose proof (ldap_bind_login _ _ _ _ _ _ _ _ E) as Hl. rewrite E.
+  assert (code = RES_SUCCESS) as -> by (apply Hc; right; exact Hin).
+  cbn [reply_ok RES_SUCCESS N.eqb] in Hl. subst l'.
+  pose proof (ldap_run_keeps creds mid (norm_dn dn) K) as R.
+  destruct (ldap_run creds (norm_dn dn) mid) as [fin out]. cbn [fst] in *. subst fin.
+  destruct (ldap_catchall_code (norm_dn dn) tag G) as [rt Ec]. exists rt. rewrite Ec.
+  destruct (norm_dn dn); [congruence | reflexivity].
+Qed.
+
+(* ftp: the login state of a connection and the dispatcher's decision do not depend on the
+   file system, hence not on what other connections did to it *)
+Lemma ftp_step_auth users u ru fs line st' o :
+  ftp_step users (mkF u ru fs) line = (st', o) ->
+  auth_step users (u, ru) line = ((f_user st', f_requser st'), oclass o).
+Proof.
+  unfold ftp_step, auth_step. destruct (parse_line line) as [command param].
+  destruct (ftp_lookup (to_upper command)) as [c|]; [|intros E; inversion E; reflexivity].
+  cbn [f_user fst snd].
+  destruct (require_param c && _); [intros E; inversion E; reflexivity|].
+  destruct (require_auth c && _); [intros E; inversion E; reflexivity|].
+  destruct (ftp_exec users (mkF u ru fs) c param) as [st1 codes] eqn:Ex.
+  intros E; inversion E; subst. cbn [oclass].
+  destruct c; cbn [ftp_exec f_user f_requser f_fs] in Ex;
+    repeat match type of Ex with context [if ?b then _ else _] => destruct b eqn:? end;
+    inversion Ex; subst; reflexivity.
+Qed.
+
+Lemma ftp_frame users sched : forall auth fs c,
+  map (fun x => oclass (snd x)) (proj c (fst (ftp_multi users auth fs sched))) =
+  snd (auth_run users (auth c) (proj c sched)).
+Proof.
+  induction sched as [|[k l] rest IH]; intros auth fs c; cbn [ftp_multi]; [reflexivity|].
+  destruct (ftp_step users (mkF (fst (auth k)) (snd (auth k)) fs) l) as [st' o] eqn:Es.
+  pose proof (ftp_step_auth _ _ _ _ _ _ _ Es) as A.
+  specialize (IH (upd auth k (f_user st', f_requser st')) (f_fs st') c).
+  destruct (ftp_multi users (upd auth k (f_user st', f_requser st')) (f_fs st') rest) as [out fin].
+  cbn [fst] in *. rewrite !proj_cons. destruct (Nat.eqb k c) eqn:E.
+  - apply Nat.eqb_eq in E. subst k. cbn [map snd auth_run].
+    rewrite <- surjective_pairing in A. rewrite A. rewrite upd_same in IH. rewrite IH.
+    destruct (auth_run users (f_user st', f_requser st') (proj c rest)). reflexivity.
+  - rewrite upd_other in IH by assumption. exact IH.
+Qed.
+
+(* the gate in terms of the login state alone *)
+Lemma auth_step_gate users a line command param c :
+  parse_line line = (command, param) -> ftp_lookup (to_upper command) = Some c ->
+  require_auth c = true -> fst a = [] ->
+  auth_step users a line = (a, 1%N) \/ auth_step users a line = (a, 2%N).
+Proof.
+  intros P L R U. destruct a as [u ru]. cbn [fst] in U. subst u.
+  unfold auth_step. rewrite P, L, R. cbn [fst andb].
+  destruct (require_param c && _); auto.
+Qed.
+
+(* ftp: the effect of a login: a logged-in connection stays logged in, and a command with
+   RequireAuth is then executed (or lacks its argument) - never answered 530 *)
+Lemma ftp_step_stays_logged st l st' o :
+  f_user st <> [] -> ftp_step ftp_users st l = (st', o) -> f_user st' <> [].
+Proof.
+  intros U. unfold ftp_step. destruct (parse_line l) as [command param].
+  destruct (ftp_lookup (to_upper command)) as [c|]; [|intros E; inversion E; subst; auto].
+  destruct (require_param c && _); [intros E; inversion E; subst; auto|].
+  destruct (require_auth c && _); [intros E; inversion E; subst; auto|].
+  destruct (ftp_exec ftp_users st c param) as [st1 codes] eqn:Ex. intros E; inversion E; subst.
+  destruct (ftp_exec_user _ _ _ _ _ _ Ex) as [H|[_ [_ [C ->]]]]; [congruence|].
+  apply ftp_users_only_anonymous in C as [-> _]. cbn. discriminate.
+Qed.
+
+Lemma ftp_run_stays_logged lines : forall st,
+  f_user st <> [] -> f_user (fst (ftp_run ftp_users st lines)) <> [].
+Proof.
+  induction lines as [|l rest IH]; intros st U; cbn [ftp_run]; [exact U|].
+  destruct (ftp_step ftp_users st l) as [st1 o] eqn:Es.
+  specialize (IH st1 (ftp_step_stays_logged _ _ _ _ U Es)).
+  destruct (ftp_run ftp_users st1 rest). exact IH.
+Qed.
+
+Lemma ftp_login_effect users st l command param c :
+  parse_line l = (command, param) -> ftp_lookup (to_upper command) = Some c ->
+  require_auth c = true -> f_user st <> [] ->
+  snd (ftp_step users st l) = FNoParam \/
+  exists st' codes, ftp_exec users st c param = (st', codes) /\
+                    ftp_step users st l = (st', FExec codes) /\ codes_eqb codes [530%N] = false.
+Proof.
+  intros P L R U. unfold ftp_step. rewrite P, L, R.
+  destruct (require_param c && _); [left; reflexivity|]. right.
+  destruct (f_user st) eqn:Fu; [congruence|]. cbn [andb].
+  destruct (ftp_exec users st c param) as [st' codes] eqn:Ex. exists st', codes.
+  repeat split. eapply ftp_exec_not_530; [|exact Ex]. intros ->. discriminate R.
 Qed.
